@@ -91,9 +91,23 @@ def run_case(case, ctx):
                 if absolute:
                     sc = sc * rs.choice([-1, 1], R)
                 F2.append((f[:, p] * sc).astype(dt))
+        # array objects may be shared: a mode given as the very same array in both lists (a known, fixed mode), or one array repeated in
+        # several positions of a list (symmetric models [U, U, W]); only the values count
+        sharing = "none"
+        if g == "congruence_generic" and nm >= 2 and rs.rand() < 0.35:
+            if rs.rand() < 0.5:
+                k_ = int(rs.randint(nm))
+                F2[k_] = F1[k_]
+                sharing = "same-object-in-both-lists"
+            else:
+                i_, j_ = (int(v_) for v_ in rs.choice(nm, size=2, replace=False))
+                if rows[i_] == rows[j_] or True:
+                    F1[j_], F2[j_] = F1[i_], F2[i_]
+                    sharing = "object-repeated-within-a-list"
         single = nm == 1 and bool(rs.rand() < 0.5)
         a1, a2 = (F1[0], F2[0]) if single else (list(F1), list(F2))
-        desc = {"gen": g, "rows": rows, "rank": R, "absolute": absolute, "dtype": dt, "single": single}
+        desc = {"gen": g, "rows": rows, "rank": R, "absolute": absolute, "dtype": dt, "single": single, "sharing": sharing}
+        ctx.count("sharing/" + sharing)
         score, perm = congruence_coefficient(a1, a2, absolute_value=absolute)
         Cs = [cos_matrix(x, y, absolute) for x, y in zip(F1, F2)]
         best, Pm, n_enum = brute(Cs)
